@@ -1,5 +1,8 @@
 use crate::*;
 use std::time::Duration;
+#[cfg(slotted_egraphs_verif)]
+use crate::verif::Instant;
+#[cfg(not(slotted_egraphs_verif))]
 use std::time::Instant;
 
 pub struct Iteration<IterData> {
